@@ -149,6 +149,17 @@ def run(tier, seed):
         r.corr_checked += 1
         if not stdio.agree(a, m):
             r.corr_bad.append((k, list(step[:5]), a, m))
+            # the label set (and its ordering class) is exactly what the property constrains: the model's
+            # set is available − declared − self − narrower scope (C18_excluded_iff, C18_sort_classes)
+            if step[0] == "req" and step[1] == "completion" and not m.startswith("ANYOF"):
+                li = sorted(x.split("|")[0] + "/" + (x.split("|")[1] or "")[:1] for x in parse_list(a)) if a not in ("none", "[]") else []
+                lm = sorted(x.split("|")[0] + "/" + (x.split("|")[1] or "")[:1] for x in parse_list(m)) if m not in ("none", "[]") else []
+                if li != lm:
+                    extra = [x for x in li if x not in lm]; missing = [x for x in lm if x not in li]
+                    msg = (f"stdio case {sc.name}: completion at {step[2]}:{step[3]}:{step[4]} offers {li}; the usable fixtures there "
+                           f"(available − declared − self − narrower scope, with their ordering class) are {lm}: "
+                           f"unexpected {extra}, missing {missing}")
+                    v.violation(f"{sc.name}-{i}-set", msg, f"# {msg}\n" + mcases.replay_text(sc.name))
         if step[0] == "req" and a not in ("none", "[]"):
             labels = [x.split("|")[0] for x in parse_list(a)]
             nitems += len(labels)
